@@ -366,9 +366,39 @@ func runOverflow(c *core.Ctx) []core.Obligation {
 						}
 					}
 				}
+				// the digit is added (subtracted) under a wrap test: the sum (or, when
+				// accumulating negatively, the product) is an operand of an ordering comparison
+				stepChecked := false
+				ordered := func(v ssa.Value) bool {
+					for _, ref := range *v.Referrers() {
+						if bo, ok := ref.(*ssa.BinOp); ok {
+							switch bo.Op {
+							case token.LSS, token.GTR, token.LEQ, token.GEQ:
+								return true
+							}
+						}
+					}
+					return false
+				}
+				if negative {
+					stepChecked = ordered(mul)
+					for _, ref := range *mul.Referrers() {
+						if phi, ok := ref.(*ssa.Phi); ok && ordered(phi) {
+							stepChecked = true
+						}
+					}
+				} else {
+					for _, ref := range *mul.Referrers() {
+						if add, ok := ref.(*ssa.BinOp); ok && add.Op == token.ADD && ordered(add) {
+							stepChecked = true
+						}
+					}
+				}
 				switch {
+				case (!negative && hiOK || negative && loOK) && !stepChecked:
+					b.addP(props, core.Violation, key, c.InstrPos(mul), fmt.Sprintf("%s bounds its accumulator by max/10 but adds the digit without a wrap test: when the accumulator equals max/10 a last digit above max%%10 wraps silently (18446744073709551616 decodes as 0)", fnName))
 				case !negative && hiOK, negative && loOK:
-					b.addP(props, core.Discharged, key, c.InstrPos(mul), "the accumulator is bounded by max/10 (min/10) before it is multiplied by 10")
+					b.addP(props, core.Discharged, key, c.InstrPos(mul), "the accumulator is bounded by max/10 (min/10) before it is multiplied by 10, and the digit is added under a wrap test")
 				default:
 					have := "no bound"
 					if hi != nil {
@@ -384,6 +414,157 @@ func runOverflow(c *core.Ctx) []core.Obligation {
 	}
 	if n == 0 {
 		b.addP(props, core.Undecided, "overflow", "-", "no decimal accumulation found in parseInt/parseUint")
+	}
+	return b.out
+}
+
+// R-COERCE — text copied from the document into an unquoted string goes through the coercion of
+// invalid UTF-8 (encoding/json replaces each bad byte with U+FFFD): parseStringUnquote never
+// appends a segment of the input to its output directly.
+// R-FLAGBITS — the kind bit-field stored in ParseFlags does not overlap any flag constant.
+func init() {
+	Register(&Rule{
+		ID:    "R-COERCE",
+		Doc:   "in json.(decoder).parseStringUnquote every append whose source is a sub-slice of the input passes through appendCoerceInvalidUTF8; a plain append(r, s[:i]...) of input bytes is reported",
+		Props: []string{"C02", "C17", "C11"},
+		Min:   map[string]int{"C02": 1, "C17": 1, "C11": 1},
+		Run:   runCoerce,
+	})
+	Register(&Rule{
+		ID:    "R-FLAGBITS",
+		Doc:   "constant evaluation: every ParseFlags and AppendFlags constant of json is a single distinct bit, and the 8-bit kind field (0xFF << kindOffset) used by Tokenizer.Next through withKind is disjoint from all of them — otherwise storing a token kind sets or clears a parsing flag",
+		Props: []string{"C17", "C14", "C02"},
+		Min:   map[string]int{"C17": 2, "C14": 2, "C02": 2},
+		Run:   runFlagBits,
+	})
+}
+
+func runCoerce(c *core.Ctx) []core.Obligation {
+	b := newOb(c, "R-COERCE")
+	props := []string{"C02", "C17", "C11"}
+	fn := c.Lookup("json.(decoder).parseStringUnquote")
+	key := "coerce:parseStringUnquote"
+	if fn == nil {
+		b.addP(props, core.Undecided, key, "-", "json.(decoder).parseStringUnquote not found")
+		return b.out
+	}
+	// values that are (sub-slices of) the input text
+	isInput := func(v ssa.Value) bool {
+		return dependsOn(v, func(x ssa.Value) bool {
+			if ex, ok := x.(*ssa.Extract); ok {
+				if call, ok := ex.Tuple.(*ssa.Call); ok {
+					if f := staticCallee(call.Common()); f != nil && f.Name() == "parseString" {
+						return true
+					}
+				}
+			}
+			return false
+		})
+	}
+	nCoerced, bad := 0, ""
+	for _, ci := range callsIn(fn) {
+		call, ok := ci.(*ssa.Call)
+		if !ok {
+			continue
+		}
+		cc := call.Common()
+		if f := staticCallee(cc); f != nil && f.Name() == "appendCoerceInvalidUTF8" {
+			nCoerced++
+			continue
+		}
+		if bi, ok := cc.Value.(*ssa.Builtin); ok && bi.Name() == "append" && len(cc.Args) == 2 {
+			src := cc.Args[1]
+			if _, isSlice := src.(*ssa.Slice); isSlice && isInput(src) {
+				// a slice of a local array (the variadic byte) is not input
+				if sl := src.(*ssa.Slice); rootLocal(sl.X) == nil {
+					bad = c.InstrPos(call)
+				}
+			}
+		}
+	}
+	switch {
+	case bad != "":
+		b.addP(props, core.Violation, key, bad, "parseStringUnquote appends a segment of the input to the unquoted text without appendCoerceInvalidUTF8: invalid UTF-8 in that segment is copied through, where encoding/json (and the segments handled by the other calls) replace each bad byte with U+FFFD")
+	case nCoerced == 0:
+		b.addP(props, core.Undecided, key, c.FuncPos(fn), "no call of appendCoerceInvalidUTF8 found: the unquoting loop has changed shape")
+	default:
+		b.addP(props, core.Discharged, key, c.FuncPos(fn), fmt.Sprintf("%d input segment(s) appended, all through appendCoerceInvalidUTF8", nCoerced))
+	}
+	return b.out
+}
+
+func runFlagBits(c *core.Ctx) []core.Obligation {
+	b := newOb(c, "R-FLAGBITS")
+	props := []string{"C17", "C14", "C02"}
+	jp := c.Pkg("json")
+	if jp == nil {
+		b.addP(props, core.Undecided, "flagbits", "-", "json package not loaded")
+		return b.out
+	}
+	scope := jp.Types.Scope()
+	var kindOffset uint64
+	haveOffset := false
+	type fc struct {
+		name string
+		val  uint64
+		typ  string
+	}
+	var flags []fc
+	for _, name := range scope.Names() {
+		k, ok := scope.Lookup(name).(*types.Const)
+		if !ok {
+			continue
+		}
+		tn := types.TypeString(k.Type(), func(p *types.Package) string { return p.Name() })
+		if tn != "json.ParseFlags" && tn != "json.AppendFlags" {
+			continue
+		}
+		v, ok := constantUint(k)
+		if !ok {
+			continue
+		}
+		if name == "kindOffset" {
+			kindOffset, haveOffset = v, true
+			continue
+		}
+		flags = append(flags, fc{name, v, tn})
+	}
+	if !haveOffset || len(flags) == 0 {
+		b.addP(props, core.Undecided, "flagbits", "-", "kindOffset or the flag constants were not found")
+		return b.out
+	}
+	mask := uint64(0xFF) << kindOffset
+	var overlap, notBit, dup []string
+	seen := map[string]map[uint64]string{}
+	for _, f := range flags {
+		if f.typ == "json.ParseFlags" && f.val&mask != 0 {
+			overlap = append(overlap, fmt.Sprintf("%s=%#x", f.name, f.val))
+		}
+		if f.val == 0 {
+			continue
+		}
+		if f.val&(f.val-1) != 0 {
+			notBit = append(notBit, f.name) // composite masks are allowed, only reported for information
+			continue
+		}
+		if seen[f.typ] == nil {
+			seen[f.typ] = map[uint64]string{}
+		}
+		if other, ok := seen[f.typ][f.val]; ok {
+			dup = append(dup, other+"/"+f.name)
+		}
+		seen[f.typ][f.val] = f.name
+	}
+	pos := "json/json.go"
+	if len(overlap) > 0 {
+		b.addP(props, core.Violation, "flagbits:kind-field-disjoint", pos, fmt.Sprintf("the kind field %#x (0xFF << kindOffset=%d) overlaps the ParseFlags constant(s) %v: Tokenizer.Next stores the token kind with withKind, which then sets or clears those flags for the next token (an Object kind reads back as noBackslash, and the first key after '{' is parsed as if it had no escapes)", mask, kindOffset, overlap))
+	} else {
+		b.addP(props, core.Discharged, "flagbits:kind-field-disjoint", pos, fmt.Sprintf("kind field %#x is disjoint from the %d flag constants", mask, len(flags)))
+	}
+	if len(dup) > 0 {
+		b.addP(props, core.Violation, "flagbits:distinct", pos, fmt.Sprintf("two flags share a bit: %v", dup))
+	} else {
+		b.addP(props, core.Discharged, "flagbits:distinct", pos, fmt.Sprintf("every single-bit flag has its own bit (composite masks: %v)", notBit))
 	}
 	return b.out
 }
